@@ -384,5 +384,22 @@ def run(ck):
         if after_fit != 3 or after_pred != 3:
             ck.violation(f'fit / predict on {dW}-dimensional data with n_threads=None left the torch thread count at {after_fit} / {after_pred}, it was 3',
                          dict(kind='wide', d=dW, after_fit=after_fit, after_predict=after_pred), key=json.dumps(dict(site='threads', call='fit-wide')))
+    # ---- a caller thread count ABOVE the number of cores (oversubscribed on purpose), n_threads set on the model: after every call it is what it was
+    for j in range(ck.n(2, 4)):
+        XO = xr.make_X('random', 80, 3, nr); yO = xr.make_y('reg', XO, nr)
+        mO = xr.xRFM(rfm_params=xr.default_rfm_params(iters=0, reg=1e-2, bandwidth=3.0), max_leaf_size=[10_000, 30][j % 2], verbose=False, use_temperature_tuning=False, n_threads=2)
+        t_before = torch.get_num_threads(); want_thr = (os.cpu_count() or 4) + 3; torch.set_num_threads(want_thr)
+        seen = {}
+        try:
+            with xr.quiet():
+                mO.fit(torch.tensor(XO), torch.tensor(yO), torch.tensor(XO[:20]), torch.tensor(yO[:20])); seen['fit'] = torch.get_num_threads()
+                torch.set_num_threads(want_thr); mO.predict(torch.tensor(XO[:9])); seen['predict'] = torch.get_num_threads()
+        finally:
+            torch.set_num_threads(t_before)
+        ck.case(dict(kind='oversubscribed caller', threads=want_thr), nontrivial=True); ck.count('caller thread count above the core count')
+        bad_o = {k: v for k, v in seen.items() if v != want_thr}
+        if bad_o:
+            ck.violation(f'the torch thread count was {want_thr} before the call (n_threads=2 on the model) and is {bad_o} after it', dict(kind='oversubscribed', before=want_thr, after=bad_o),
+                         key=json.dumps(dict(site='threads', call='oversubscribed')))
     ck.obligation('correspondence: inside every real fit the probes read the override value and the requested thread count (protocol model: the override is in force between Enter and Exit)',
                   'correspondence', not inside_mismatch, f'first mismatches: {inside_mismatch[:2]}')
